@@ -96,7 +96,7 @@ func main() {
 		}
 		if *only >= 0 {
 			for j, o := range e.Ops {
-				fmt.Printf("%3d %-50s %s ev=%v heap=%v reg=%v\n", j, o.String(), e.Samples[j].Class, e.Samples[j].Events, e.Samples[j].Heap, e.Samples[j].Reg)
+				fmt.Printf("%3d %-50s %s ev=%v heap=%v reg=%v vals=%v\n", j, o.String(), e.Samples[j].Class, e.Samples[j].Events, e.Samples[j].Heap, e.Samples[j].Reg, e.Samples[j].Vals)
 			}
 		}
 		if len(cases) < *coqMax {
